@@ -390,19 +390,13 @@ def hFinal (h : HPc) : Bool :=
   | .sp4 => false
   | .uTls => false
   | .uStack => false
-  | .uBox true => false
-  | .uBox false => false
-  | .uTsm true => false
-  | .uTsm false => false
-  | .failed true => true
-  | .failed false => true
+  | .uBox _ => false
+  | .uTsm _ => false
+  | .failed _ => true
   | .handle => false
-  | .wLoad true => false
-  | .wLoad false => false
-  | .wSys true => false
-  | .wSys false => false
-  | .wParked true => false
-  | .wParked false => false
+  | .wLoad _ => false
+  | .wSys _ => false
+  | .wParked _ => false
   | .jRead => false
   | .jFree => false
   | .joined => true
@@ -420,19 +414,13 @@ def isFailed (h : HPc) : Bool :=
   | .sp4 => false
   | .uTls => false
   | .uStack => false
-  | .uBox true => false
-  | .uBox false => false
-  | .uTsm true => false
-  | .uTsm false => false
-  | .failed true => true
-  | .failed false => true
+  | .uBox _ => false
+  | .uTsm _ => false
+  | .failed _ => true
   | .handle => false
-  | .wLoad true => false
-  | .wLoad false => false
-  | .wSys true => false
-  | .wSys false => false
-  | .wParked true => false
-  | .wParked false => false
+  | .wLoad _ => false
+  | .wSys _ => false
+  | .wParked _ => false
   | .jRead => false
   | .jFree => false
   | .joined => false
@@ -456,19 +444,13 @@ def spawnedOk (h : HPc) : Bool :=
   | .sp4 => false
   | .uTls => false
   | .uStack => false
-  | .uBox true => false
-  | .uBox false => false
-  | .uTsm true => false
-  | .uTsm false => false
-  | .failed true => false
-  | .failed false => false
+  | .uBox _ => false
+  | .uTsm _ => false
+  | .failed _ => false
   | .handle => true
-  | .wLoad true => true
-  | .wLoad false => true
-  | .wSys true => true
-  | .wSys false => true
-  | .wParked true => true
-  | .wParked false => true
+  | .wLoad _ => true
+  | .wSys _ => true
+  | .wParked _ => true
   | .jRead => true
   | .jFree => true
   | .joined => true
